@@ -79,6 +79,29 @@ func vdebAlive() int {
 
 var vdebLingering atomic.Int64
 
+// Busy: some debouncer goroutine is inside the reload action and running or waiting for a CPU
+// (rendering the template, writing the file).  A goroutine parked on a mutex, channel or the
+// harness gate is not busy.
+func (t *vdebSMTarget) Busy() bool {
+	buf := make([]byte, 4<<20)
+	n := runtime.Stack(buf, true)
+	for _, g := range bytes.Split(buf[:n], []byte("\n\n")) {
+		if !bytes.Contains(g, []byte("internal/bgp/frr.debouncer.func1(")) {
+			continue
+		}
+		head := g
+		if i := bytes.IndexByte(g, '\n'); i >= 0 {
+			head = g[:i]
+		}
+		for _, st := range []string{"[running", "[runnable", "[syscall", "[IO wait"} {
+			if bytes.Contains(head, []byte(st)) {
+				return true
+			}
+		}
+	}
+	return false
+}
+
 // the run's name is part of every configuration: a reload action that finds another run's
 // configuration in the file was not caused by this run (the reload action is a package variable)
 func (t *vdebSMTarget) Submit(c int) {
@@ -118,6 +141,7 @@ func vdebMakeSM(dir string) func(env *verifkit.DebEnv) verifkit.DebTarget {
 			}
 			if run != env.Script.ID || env.Over() {
 				vdebForeign.Add(1)
+				env.Disturb()
 				return nil
 			}
 			return env.Body(c)
